@@ -204,8 +204,8 @@ type RtspCase struct {
 	//   none | options | announced | setup | recording   (publisher side)
 	//   described | subsetup | playing                   (subscriber side; a healthy RTMP feed publishes the stream)
 	Stage string `json:"stage"`
-	Video string `json:"video"` // codec of the valid announce: avc | hevc | ""
-	Audio string `json:"audio"` // aac | pcma | pcmu | opus | ""
+	Video string `json:"video"`         // codec of the valid announce: avc | hevc | ""
+	Audio string `json:"audio"`         // aac | pcma | pcmu | opus | ""
 	Udp   bool   `json:"udp,omitempty"` // the valid SETUPs ask for UDP transport (lal opens RTP/RTCP sockets)
 	// UdpMix (with Udp): 0 = every track over UDP; 1 = only the first track over UDP, the others interleaved;
 	// 2 = the first track interleaved, the others over UDP
@@ -1121,6 +1121,10 @@ func runTicks(s *inproc.Server, fd *feed, ticks []uint32) *pbt.Violation {
 		if v := s.PanicViolation(); v != nil {
 			return v
 		}
+		// RunLoop's ticker also takes the statistics of every group (on_update, debug log)
+		if v := statSnapshot(s, "c13hostile", "c13feed", pullStream, gbStream); v != nil {
+			return v
+		}
 	}
 	return nil
 }
@@ -1137,6 +1141,12 @@ func deliverRtsp(s *inproc.Server, conn *memconn.Conn, wire []byte, slices []int
 		if v := runTicks(s, fd, ticksAfter); v != nil {
 			return v
 		}
+	}
+	// the statistics of a session in whatever state the hostile tail left it (an API request, the on_update
+	// notification and the ticker's debug log take them at any moment)
+	conn.WaitPeerIdle(lalclient.IdleTimeout)
+	if v := statSnapshot(s, "c13hostile", "c13feed", "c13other", "streamid=0"); v != nil {
+		return v
 	}
 	conn.CloseWrite()
 	return waitReturn(s, done, marker, what)
@@ -1206,9 +1216,18 @@ func runRtspOnce(c RtspCase) *pbt.Violation {
 		if v := runTicks(s, fd, c.Ticks); v != nil {
 			return v
 		}
+		if v := statSnapshot(s, "c13hostile", "c13feed"); v != nil { // announced-only, described, set-up ... sessions
+			return v
+		}
 	}
 	if v := deliverRtsp(s, conn, tail, c.Slices, fd, c.FeedAfter, c.TicksAfter, conn.WaitPeerDone, "rtsp.(*Server).handleTcpConnect", "rtsp"); v != nil {
 		return v
+	}
+	if !c.subscriberSide() && fd.key%2 == 0 {
+		// the hostile session has returned: the name it used must be usable again
+		if v := republish(s, "c13hostile"); v != nil {
+			return v
+		}
 	}
 	return probe(s, fd)
 }
@@ -1252,6 +1271,7 @@ func (c *RtspCase) sendDatagrams(s *inproc.Server, responses string) {
 	}
 	before, _ := counted()
 	sent := 0
+	ndgram, nacked := 0, 0
 	for _, step := range c.Steps {
 		f := step.Frame
 		if f == nil || (f.Rtp == nil && f.Rtcp == nil) {
@@ -1280,6 +1300,7 @@ func (c *RtspCase) sendDatagrams(s *inproc.Server, responses string) {
 		// paced: the next datagram goes out when this one has been counted (lal counts a packet when its handler
 		// starts), so that packets to different sockets are handled in the order of the case; a lost datagram
 		// costs 300 ms and nothing else
+		ndgram++
 		deadline := time.Now().Add(300 * time.Millisecond)
 		for time.Now().Before(deadline) {
 			cur, ok := counted()
@@ -1288,10 +1309,24 @@ func (c *RtspCase) sendDatagrams(s *inproc.Server, responses string) {
 				break
 			}
 			if cur >= before+uint64(sent) {
+				nacked++
 				break
 			}
 			time.Sleep(200 * time.Microsecond)
 		}
+	}
+	// was any of it received?  Datagrams "sent into the void" (lost, or no reader behind the port) make the UDP leg of
+	// the case shallow: counted, per case, in the evidence
+	switch {
+	case ndgram == 0:
+	case c.subscriberSide():
+		note("rtsp-command/udp-datagrams:subscriber-side-unobservable") // lal's subscriber-side readers count nothing
+	case nacked == 0:
+		note("rtsp-command/shallow:udp-datagrams-all-into-the-void")
+	case nacked < ndgram:
+		note("rtsp-command/udp-datagrams:some-counted-by-lal")
+	default:
+		note("rtsp-command/udp-datagrams:all-counted-by-lal")
 	}
 	// the handler of the last datagram may still be running: give it a moment (a crash there kills the process)
 	time.Sleep(2 * time.Millisecond)
